@@ -24,12 +24,12 @@ theorem parseItems_nats (a : Bool) : ∀ ns : List Nat,
 
 /-- the weight item of a well-formed ballot is read back with the same value -/
 theorem weightTok_num (w : Weight) (h : weightOK w = true) :
-    ∃ x : Num, parseItems true true [weightTok w] = .ok [x] ∧ x.val = w.val ∧ x ≠ Num.nan ∧
+    ∃ x : Num, x.val = w.val ∧
       ∀ ts, parseItems true true (weightTok w :: ts) = (parseItems true false ts >>= fun xs => pure (x :: xs)) := by
   cases w with
   | int z =>
     have hz : 0 ≤ z := by simpa [weightOK] using h
-    refine ⟨.nat z.toNat, by simp [weightTok, hz, parseItems], ?_, by simp, ?_⟩
+    refine ⟨.nat z.toNat, ?_, ?_⟩
     · simp only [Num.val, Weight.val]
       have : ((z.toNat : Int)) = z := Int.toNat_of_nonneg hz
       exact_mod_cast this
@@ -38,12 +38,11 @@ theorem weightTok_num (w : Weight) (h : weightOK w = true) :
     simp only [weightOK, Bool.and_eq_true, decide_eq_true_eq, Bool.or_eq_true, Bool.not_eq_true'] at h
     obtain ⟨h0, hd⟩ := h
     cases digits with
-    | false =>
-      exact ⟨.dec r, by simp [weightTok, parseItems], rfl, by simp, by intro ts; simp [weightTok, parseItems]⟩
+    | false => exact ⟨.dec r, rfl, by intro ts; simp [weightTok, parseItems]⟩
     | true =>
       have hden : r.den = 1 := by simpa using hd
       have hnum : 0 ≤ r.num := Rat.num_nonneg.2 h0
-      refine ⟨.nat r.num.toNat, by simp [weightTok, parseItems], ?_, by simp, by intro ts; simp [weightTok, parseItems]⟩
+      refine ⟨.nat r.num.toNat, ?_, by intro ts; simp [weightTok, parseItems]⟩
       simp only [Num.val, Weight.val]
       have h1 : ((r.num.toNat : Int)) = r.num := Int.toNat_of_nonneg hnum
       have h2 : (r.num : Rat) = r := by
@@ -53,20 +52,19 @@ theorem weightTok_num (w : Weight) (h : weightOK w = true) :
       rw [← h2]
       exact_mod_cast h1
   | fraction r =>
-    simp only [weightOK, Bool.and_eq_true, decide_eq_true_eq] at h
-    obtain ⟨h0, hden⟩ := h
+    have h0 : 0 ≤ r := by simpa [weightOK] using h
     have hnum : 0 ≤ r.num := Rat.num_nonneg.2 h0
-    refine ⟨.nat r.num.toNat, by simp [weightTok, hden, hnum, parseItems], ?_, by simp,
-      by intro ts; simp [weightTok, hden, hnum, parseItems]⟩
-    simp only [Num.val, Weight.val]
-    have h1 : ((r.num.toNat : Int)) = r.num := Int.toNat_of_nonneg hnum
-    have h2 : (r.num : Rat) = r := by
-      have := Rat.num_div_den r
-      rw [hden] at this
-      simpa using this
-    rw [← h2]
-    exact_mod_cast h1
-
+    by_cases hden : r.den = 1
+    · refine ⟨.nat r.num.toNat, ?_, by intro ts; simp [weightTok, hden, hnum, parseItems]⟩
+      simp only [Num.val, Weight.val]
+      have h1 : ((r.num.toNat : Int)) = r.num := Int.toNat_of_nonneg hnum
+      have h2 : (r.num : Rat) = r := by
+        have := Rat.num_div_den r
+        rw [hden] at this
+        simpa using this
+      rw [← h2]
+      exact_mod_cast h1
+    · exact ⟨.dec r, rfl, by intro ts; simp [weightTok, hden, parseItems]⟩
 
 theorem natsOf_nats : ∀ ns : List Nat, natsOf (ns.map Num.nat) = ns
   | [] => rfl
@@ -74,10 +72,10 @@ theorem natsOf_nats : ∀ ns : List Nat, natsOf (ns.map Num.nat) = ns
 
 /-- a ballot line of the writer, as the body loop reads it -/
 theorem parse_dumpVote (idx : List Nat) (w : Weight) (h : weightOK w = true) :
-    ∃ x : Num, x.val = w.val ∧ x ≠ Num.nan ∧
+    ∃ x : Num, x.val = w.val ∧
       parseNumline true (dumpVote (idx, w)) = .ok (x :: ((idx.map (· + 1)).map Num.nat ++ [Num.nat 0])) := by
-  obtain ⟨x, _, hv, hn, hts⟩ := weightTok_num w h
-  refine ⟨x, hv, hn, ?_⟩
+  obtain ⟨x, hv, hts⟩ := weightTok_num w h
+  refine ⟨x, hv, ?_⟩
   simp only [dumpVote, parseNumline]
   rw [hts]
   have : (idx.map (fun i => Tok.nat (i + 1)) ++ [Tok.nat 0]) = ((idx.map (· + 1)) ++ [0]).map Tok.nat := by simp
@@ -91,7 +89,7 @@ theorem parseBody_vote (idx : List Nat) (w : Weight) (h : weightOK w = true) (h0
     (rest : List Line) (bs : RawBallots) (wd : List Rat) (seen : Bool) :
     parseBody (dumpVote (idx, w) :: rest) bs wd seen
       = parseBody rest (addBallot bs (idx.map (· + 1)) w.val) wd true := by
-  obtain ⟨x, hv, hn, hp⟩ := parse_dumpVote idx w h
+  obtain ⟨x, hv, hp⟩ := parse_dumpVote idx w h
   simp only [parseBody, hp, ok_bind]
   have hne : ((idx.map (· + 1)).map Num.nat ++ [Num.nat 0]).isEmpty = false := by simp
   have hlt : ¬ x.val < 0 := by rw [hv]; exact not_lt.2 h0
@@ -101,7 +99,7 @@ theorem parseBody_vote (idx : List Nat) (w : Weight) (h : weightOK w = true) (h0
   have hdrop : (x :: ((idx.map (· + 1)).map Num.nat ++ [Num.nat 0])).dropLast = x :: (idx.map (· + 1)).map Num.nat := by
     rw [show x :: ((idx.map (· + 1)).map Num.nat ++ [Num.nat 0]) = (x :: (idx.map (· + 1)).map Num.nat) ++ [Num.nat 0] by simp]
     exact List.dropLast_concat
-  simp only [hne, Bool.false_and, Bool.false_eq_true, if_false, hn, hlt, hlast, hdrop]
+  simp only [hne, Bool.false_and, Bool.false_eq_true, if_false, hlt, hlast, hdrop]
   have hnats : natsOf ((idx.map (· + 1)).map Num.nat) = idx.map (· + 1) := natsOf_nats _
   have h00 : (Num.nat 0).val = 0 := by simp [Num.val]
   simp only [hnats, h00, hv, ne_eq, not_true_eq_false, if_false]
@@ -130,9 +128,7 @@ theorem parseBody_votes : ∀ (bl : List (List Nat × Weight)) (rest : List Line
         | decimal r d =>
           simp only [weightOK, Bool.and_eq_true, decide_eq_true_eq] at hw
           exact hw.1
-        | fraction r =>
-          simp only [weightOK, Bool.and_eq_true, decide_eq_true_eq] at hw
-          exact hw.1
+        | fraction r => simpa [weightOK, Weight.val] using hw
       have hfresh : idx.map (· + 1) ∉ acc.map (·.1) := by
         intro hm
         have := List.nodup_append.1 hn
@@ -267,15 +263,6 @@ theorem formFrom_length (W : List Rat) : ∀ (names : List String) (k : Nat), (f
   | _ :: t, k => by simp [formFrom, formFrom_length W t (k + 1)]
 
 /-! ### back from 1-based numbers to candidates -/
-theorem deindexOne_succ (n : Nat) : ∀ idx : List Nat, (∀ i ∈ idx, i < n) → deindexOne n (idx.map (· + 1)) = .ok idx
-  | [], _ => rfl
-  | i :: t, h => by
-      have hi : i < n := h i (List.mem_cons_self)
-      have h1 : pyIndex n (i + 1) = .ok i := by
-        have : i + 1 ≤ n := hi
-        simp [pyIndex, this]
-      simp [deindexOne, h1, deindexOne_succ n t (fun j hj => h j (List.mem_cons_of_mem _ hj))]
-
 theorem setBallot_fresh : ∀ (bs : List (List Nat × Rat)) (b : List Nat) (w : Rat), b ∉ bs.map (·.1) →
     setBallot bs b w = bs ++ [(b, w)]
   | [], b, w, _ => by simp [setBallot]
@@ -284,24 +271,41 @@ theorem setBallot_fresh : ∀ (bs : List (List Nat × Rat)) (b : List Nat) (w : 
       have ht : b ∉ t.map (·.1) := by intro hm; apply h; simp [hm]
       simp [setBallot, hne, setBallot_fresh t b w ht]
 
-theorem deindex_dump (n : Nat) : ∀ (bl : List (List Nat × Rat)) (acc : List (List Nat × Rat)),
-    (∀ b ∈ bl, ∀ i ∈ b.1, i < n) →
+theorem map_succ_pred (idx : List Nat) : (idx.map (· + 1)).map (· - 1) = idx := by
+  induction idx with
+  | nil => rfl
+  | cons a t ih => simp [ih]
+
+theorem deindexAll_dump : ∀ (bl : List (List Nat × Rat)) (acc : List (List Nat × Rat)),
     (acc.map (fun (a : List Nat × Rat) => a.1) ++ bl.map (fun (b : List Nat × Rat) => b.1)).Nodup →
-    deindex n (bl.map (fun b => (b.1.map (· + 1), b.2))) acc = .ok (acc ++ bl)
-  | [], acc, _, _ => by simp [deindex]
-  | (idx, w) :: t, acc, hi, hn => by
+    deindexAll (bl.map (fun b => (b.1.map (· + 1), b.2))) acc = acc ++ bl
+  | [], acc, _ => by simp [deindexAll]
+  | (idx, w) :: t, acc, hn => by
       have hfresh : idx ∉ acc.map (·.1) := by
         intro hm
         have := List.nodup_append.1 hn
         exact this.2.2 _ hm _ (by simp) rfl
       have hn' : ((acc ++ [(idx, w)]).map (fun (a : List Nat × Rat) => a.1) ++ t.map (fun (b : List Nat × Rat) => b.1)).Nodup := by
         simpa [List.append_assoc] using hn
-      simp only [List.map_cons, deindex]
-      rw [deindexOne_succ n idx (hi (idx, w) (List.mem_cons_self))]
-      simp only [ok_bind]
-      rw [setBallot_fresh acc idx w hfresh, deindex_dump n t _ (fun b hb => hi b (List.mem_cons_of_mem _ hb)) hn']
+      simp only [List.map_cons, deindexAll, map_succ_pred]
+      rw [setBallot_fresh acc idx w hfresh, deindexAll_dump t _ hn']
       simp
 
+theorem deindex_dump (n : Nat) (bl : List (List Nat × Rat))
+    (hi : ∀ b ∈ bl, ∀ i ∈ b.1, i < n)
+    (hn : (bl.map (fun (b : List Nat × Rat) => b.1)).Nodup) :
+    deindex n (bl.map (fun b => (b.1.map (· + 1), b.2))) = .ok bl := by
+  have hr : allInRange n (bl.map (fun b => (b.1.map (· + 1), b.2))) = true := by
+    simp only [allInRange, List.all_eq_true, List.mem_map, Bool.and_eq_true, decide_eq_true_eq]
+    intro x hx j hj
+    obtain ⟨b, hb, rfl⟩ := hx
+    simp only [List.mem_map] at hj
+    obtain ⟨i, hi', rfl⟩ := hj
+    have := hi b hb i hi'
+    omega
+  simp only [deindex, hr, if_true]
+  rw [deindexAll_dump bl [] (by simpa using hn)]
+  simp
 
 /-! ### assembly -/
 theorem dumpBlt_shape (d : Doc Weight) :
@@ -340,10 +344,9 @@ theorem load_dump (d : Doc Weight) (h : WFdoc d = true) : loadBlt (dumpBlt d) = 
   have hlen : d.cands.length = (d.cands.map (·.1)).length := by simp
   have hraw : d.ballots.map (fun b => (b.1.map (· + 1), b.2.val))
       = (d.ballots.map (fun b => (b.1, b.2.val))).map (fun (b : List Nat × Rat) => (b.1.map (· + 1), b.2)) := by simp
-  have hnd2 : (([] : List (List Nat × Rat)).map (fun (a : List Nat × Rat) => a.1)
-      ++ (d.ballots.map (fun b => (b.1, b.2.val))).map (fun (b : List Nat × Rat) => b.1)).Nodup := by
+  have hnd2 : ((d.ballots.map (fun b => (b.1, b.2.val))).map (fun (b : List Nat × Rat) => b.1)).Nodup := by
     have e : ((fun (a : List Nat × Rat) => a.1) ∘ fun (b : List Nat × Weight) => (b.1, b.2.val)) = (fun b => b.1) := rfl
-    simp only [List.map_nil, List.nil_append, List.map_map, e]
+    simp only [List.map_map, e]
     exact hnd
   have hidx2 : ∀ b ∈ d.ballots.map (fun b => (b.1, b.2.val)), ∀ i ∈ b.1, i < d.cands.length := by
     intro b hb i hi
@@ -360,62 +363,48 @@ theorem load_dump (d : Doc Weight) (h : WFdoc d = true) : loadBlt (dumpBlt d) = 
       cases hc : d.cands with
       | nil => simp [numericCandidates]
       | cons a t => simp
-    rw [hgetD, formCandidates_dump, hraw, deindex_dump _ _ _ hidx2 hnd2]
+    rw [hgetD, formCandidates_dump, hraw, deindex_dump _ _ hidx2 hnd2]
     simp [eraseDoc]
   · rw [hps]
     simp only [ok_bind]
     have hc : d.cands = [] := by simpa using hnil
     have hgetD : (none : Option (List String)).getD (numericCandidates d.cands.length) = d.cands.map (·.1) := by
       simp [hc, numericCandidates]
-    rw [hgetD, formCandidates_dump, hraw, deindex_dump _ _ _ hidx2 hnd2]
+    rw [hgetD, formCandidates_dump, hraw, deindex_dump _ _ hidx2 hnd2]
     simp [eraseDoc]
 
 
-/-! ### which exceptions the parser can raise -/
 
-/-- errors of the number-line lexer -/
-def LexErr (e : Err) : Prop := e = Err.parseError ∨ e = Err.other "ValueError" ∨ e = Err.other "InvalidOperation"
+/-! ### the only exception the parser raises is the parse error -/
 
-theorem parseItems_err (a : Bool) : ∀ (ts : List Tok) (i0 : Bool) (e : Err), parseItems a i0 ts = .error e → LexErr e
+theorem parseItems_err (a : Bool) : ∀ (ts : List Tok) (i0 : Bool) (e : Err), parseItems a i0 ts = .error e →
+    e = Err.parseError
   | [], _, e, h => by simp [parseItems] at h
   | t :: ts, i0, e, h => by
-      simp only [parseItems] at h
-      cases t with
-      | nat n =>
-        simp only [ok_bind, pure_eq] at h
+      have step : ∀ (x : Num), (parseItems a false ts >>= fun ys => pure (x :: ys)) = Except.error e →
+          e = Err.parseError := by
+        intro x hx
         cases hr : parseItems a false ts with
-        | error e' => rw [hr] at h; simp at h; subst h; exact parseItems_err a ts false e' hr
-        | ok xs => rw [hr] at h; simp at h
-      | udigit => simp at h; subst h; exact Or.inr (Or.inl rfl)
+        | error e' => rw [hr] at hx; simp at hx; subst hx; exact parseItems_err a ts false e' hr
+        | ok ys => rw [hr] at hx; simp at hx
+      cases t with
+      | nat n => simp only [parseItems, ok_bind, pure_eq] at h; exact step _ h
+      | udigit => simp [parseItems] at h; exact h.symm
       | dec r =>
+        simp only [parseItems] at h
         by_cases hc : (i0 && a) = true
-        · simp only [hc, if_true, ok_bind, pure_eq] at h
-          cases hr : parseItems a false ts with
-          | error e' => rw [hr] at h; simp at h; subst h; exact parseItems_err a ts false e' hr
-          | ok xs => rw [hr] at h; simp at h
-        · simp only [hc, if_false] at h; simp at h; subst h; exact Or.inl rfl
-      | nan =>
-        by_cases hc : (i0 && a) = true
-        · simp only [hc, if_true, ok_bind, pure_eq] at h
-          cases hr : parseItems a false ts with
-          | error e' => rw [hr] at h; simp at h; subst h; exact parseItems_err a ts false e' hr
-          | ok xs => rw [hr] at h; simp at h
-        · simp only [hc, if_false] at h; simp at h; subst h; exact Or.inl rfl
-      | bad =>
-        by_cases hc : (i0 && a) = true
-        · simp only [hc, if_true] at h; simp at h; subst h; exact Or.inr (Or.inr rfl)
-        · simp only [hc, if_false] at h; simp at h; subst h; exact Or.inl rfl
+        · simp only [hc, if_true, ok_bind, pure_eq] at h; exact step _ h
+        · simp [hc] at h; exact h.symm
+      | nan => simp [parseItems] at h; exact h.symm
+      | bad => simp [parseItems] at h; exact h.symm
 
-theorem parseNumline_err (a : Bool) (l : Line) (e : Err) (h : parseNumline a l = .error e) : LexErr e := by
+theorem parseNumline_err (a : Bool) (l : Line) (e : Err) (h : parseNumline a l = .error e) : e = Err.parseError := by
   cases l with
   | blank => simp [parseNumline] at h
-  | quoted s =>
-    cases a <;> simp [parseNumline] at h <;> subst h
-    · exact Or.inl rfl
-    · exact Or.inr (Or.inr rfl)
+  | quoted s => simp [parseNumline] at h; exact h.symm
   | toks ts => exact parseItems_err a ts true e h
 
-theorem parseHeader_err (l : Line) (e : Err) (h : parseHeader l = .error e) : LexErr e := by
+theorem parseHeader_err (l : Line) (e : Err) (h : parseHeader l = .error e) : e = Err.parseError := by
   simp only [parseHeader] at h
   cases hr : parseNumline false l with
   | error e' => rw [hr] at h; simp at h; subst h; exact parseNumline_err _ _ _ hr
@@ -424,11 +413,11 @@ theorem parseHeader_err (l : Line) (e : Err) (h : parseHeader l = .error e) : Le
     simp only [ok_bind] at h
     split at h
     · simp at h
-    · simp at h; subst h; exact Or.inl rfl
+    · simp at h; exact h.symm
 
 theorem parseBody_err : ∀ (ls : List Line) (bs : RawBallots) (wd : List Rat) (seen : Bool) (e : Err),
-    parseBody ls bs wd seen = .error e → LexErr e
-  | [], _, _, _, e, h => by simp [parseBody] at h; subst h; exact Or.inl rfl
+    parseBody ls bs wd seen = .error e → e = Err.parseError
+  | [], _, _, _, e, h => by simp [parseBody] at h; exact h.symm
   | l :: rest, bs, wd, seen, e, h => by
       simp only [parseBody] at h
       cases hr : parseNumline true l with
@@ -440,21 +429,11 @@ theorem parseBody_err : ∀ (ls : List Line) (bs : RawBallots) (wd : List Rat) (
         | nil => exact parseBody_err rest bs wd seen e h
         | cons first more =>
           simp only at h
-          split at h
-          · simp at h
-          · split at h
-            · simp at h; subst h; exact Or.inr (Or.inr rfl)
-            · split at h
-              · split at h
-                · simp at h; subst h; exact Or.inl rfl
-                · exact parseBody_err rest bs _ seen e h
-              · split at h
-                · split at h
-                  · simp at h; subst h; exact Or.inl rfl
-                  · split at h
-                    · simp at h; subst h; exact Or.inl rfl
-                    · exact parseBody_err rest _ wd true e h
-                · simp at h; subst h; exact Or.inl rfl
+          repeat' split at h
+          all_goals first
+            | (simp at h; done)
+            | (simp at h; exact h.symm)
+            | exact parseBody_err rest _ _ _ e h
 
 theorem collectStrings_err : ∀ (ls : List Line) (b : Bool) (acc : List String) (e : Err),
     collectStrings ls b acc = .error e → e = Err.parseError
@@ -480,492 +459,28 @@ theorem parseStrings_err (ls : List Line) (n : Nat) (e : Err) (h : parseStrings 
     repeat' split at h
     all_goals first | (simp at h; done) | (simp at h; exact h.symm)
 
-theorem deindexOne_err (n : Nat) : ∀ (idx : List Nat) (e : Err), deindexOne n idx = .error e → e = Err.other "IndexError"
-  | [], e, h => by simp [deindexOne] at h
-  | i :: t, e, h => by
-      simp only [deindexOne] at h
-      cases hp : pyIndex n i with
-      | error e' =>
-        rw [hp] at h; simp at h; subst h
-        simp only [pyIndex] at hp
-        repeat' split at hp
-        all_goals first | (simp at hp; done) | (simp at hp; exact hp.symm)
-      | ok j =>
-        rw [hp] at h
-        simp only [ok_bind] at h
-        cases ht : deindexOne n t with
-        | error e' => rw [ht] at h; simp at h; subst h; exact deindexOne_err n t e' ht
-        | ok js => rw [ht] at h; simp at h
+theorem deindex_err (n : Nat) (bs : RawBallots) (e : Err) (h : deindex n bs = .error e) : e = Err.parseError := by
+  simp only [deindex] at h
+  split at h
+  · simp at h
+  · simp at h; exact h.symm
 
-theorem deindex_err (n : Nat) : ∀ (bs : RawBallots) (acc : List (List Nat × Rat)) (e : Err),
-    deindex n bs acc = .error e → e = Err.other "IndexError"
-  | [], _, e, h => by simp [deindex] at h
-  | (b, w) :: t, acc, e, h => by
-      simp only [deindex] at h
-      cases hb : deindexOne n b with
-      | error e' => rw [hb] at h; simp at h; subst h; exact deindexOne_err n b e' hb
-      | ok b' => rw [hb] at h; simp only [ok_bind] at h; exact deindex_err n t _ e h
-
-/-- every exception `loads` can raise on any token lines -/
-theorem loadBlt_err (ls : List Line) (e : Err) (h : loadBlt ls = .error e) : LexErr e ∨ e = Err.other "IndexError" := by
-  cases ls with
-  | nil => simp [loadBlt] at h; subst h; exact Or.inl (Or.inl rfl)
-  | cons hd rest =>
-    simp only [loadBlt] at h
-    cases hh : parseHeader hd with
-    | error e' => rw [hh] at h; simp at h; subst h; exact Or.inl (parseHeader_err _ _ hh)
-    | ok ns =>
-      obtain ⟨nC, nS⟩ := ns
-      rw [hh] at h
-      simp only [ok_bind] at h
-      cases hb : parseBody rest [] [] false with
-      | error e' => rw [hb] at h; simp at h; subst h; exact Or.inl (parseBody_err _ _ _ _ _ hb)
-      | ok r =>
-        obtain ⟨bal, wd, rest'⟩ := r
-        rw [hb] at h
-        simp only [ok_bind] at h
-        cases hs : parseStrings rest' nC with
-        | error e' => rw [hs] at h; simp at h; subst h; exact Or.inl (Or.inl (parseStrings_err _ _ _ hs))
-        | ok r2 =>
-          obtain ⟨names?, title⟩ := r2
-          rw [hs] at h
-          simp only [ok_bind] at h
-          cases hd2 : deindex (formCandidates (names?.getD (numericCandidates nC)) wd).length bal [] with
-          | error e' => rw [hd2] at h; simp at h; subst h; exact Or.inr (deindex_err _ _ _ _ hd2)
-          | ok tb => rw [hd2] at h; simp at h
-
-
-/-! ### lexically sane texts raise nothing but the parse error (and IndexError for candidate numbers out of range) -/
-
-theorem parseItems_num (a : Bool) : ∀ (ts : List Tok) (i0 : Bool), ts.all Tok.isNum = true →
-    (∀ e, parseItems a i0 ts = .error e → e = Err.parseError) ∧
-    (∀ xs, parseItems a i0 ts = .ok xs → ∀ x ∈ xs, x ≠ Num.nan)
-  | [], _, _ => by simp [parseItems]
-  | t :: ts, i0, h => by
-      simp only [List.all_cons, Bool.and_eq_true] at h
-      obtain ⟨ht, hts⟩ := h
-      obtain ⟨ih1, ih2⟩ := parseItems_num a ts false hts
-      cases t with
-      | nat n =>
-        simp only [parseItems, ok_bind, pure_eq]
-        cases hr : parseItems a false ts with
-        | error e' => simp; exact ih1 e' hr
-        | ok xs =>
-          simp
-          exact ih2 xs hr
-      | dec r =>
-        simp only [parseItems]
-        by_cases hc : (i0 && a) = true
-        · simp only [hc, if_true, ok_bind, pure_eq]
-          cases hr : parseItems a false ts with
-          | error e' => simp; exact ih1 e' hr
-          | ok xs =>
-            simp
-            exact ih2 xs hr
-        · simp [hc]
-      | nan => simp [Tok.isNum] at ht
-      | udigit => simp [Tok.isNum] at ht
-      | bad => simp [Tok.isNum] at ht
-
-theorem isTerm_parseBody (ts : List Tok) (h : isTerm ts = true) (rest : List Line) (bs : RawBallots) (wd : List Rat)
-    (seen : Bool) : parseBody (Line.toks ts :: rest) bs wd seen = .ok (bs, wd, rest) := by
-  match ts, h with
-  | [.nat n], h =>
-    have : n = 0 := by simpa [isTerm] using h
-    subst this
-    exact parseBody_term rest bs wd seen
-  | [.dec r], h =>
-    have : r = 0 := by simpa [isTerm] using h
-    subst this
-    simp [parseBody, parseNumline, parseItems, Num.val]
-
-theorem parseBody_lexOK : ∀ (ls : List Line) (bs : RawBallots) (wd : List Rat) (seen : Bool) (e : Err),
-    bodyLexOK ls = true → parseBody ls bs wd seen = .error e → e = Err.parseError
-  | [], _, _, _, e, _, h => by simp [parseBody] at h; exact h.symm
-  | .blank :: rest, bs, wd, seen, e, hl, h => by
-      simp only [bodyLexOK] at hl
-      simp only [parseBody, parseNumline, pure_eq, ok_bind] at h
-      exact parseBody_lexOK rest bs wd seen e hl h
-  | .quoted s :: rest, _, _, _, _, hl, _ => by simp [bodyLexOK] at hl
-  | .toks ts :: rest, bs, wd, seen, e, hl, h => by
-      simp only [bodyLexOK, Bool.and_eq_true, Bool.or_eq_true] at hl
-      obtain ⟨hnum, hterm⟩ := hl
-      by_cases hT : isTerm ts = true
-      · rw [isTerm_parseBody ts hT] at h; cases h
-      · have hrest : bodyLexOK rest = true := by
-          cases hterm with
-          | inl h1 => exact absurd h1 hT
-          | inr h1 => exact h1
-        obtain ⟨hE, hN⟩ := parseItems_num true ts true hnum
-        simp only [parseBody, parseNumline] at h
-        cases hr : parseItems true true ts with
-        | error e' => rw [hr] at h; simp at h; subst h; exact hE e' hr
-        | ok result =>
-          rw [hr] at h
-          simp only [ok_bind] at h
-          cases result with
-          | nil => exact parseBody_lexOK rest bs wd seen e hrest h
-          | cons first more =>
-            have hfirst : first ≠ Num.nan := hN _ hr first (List.mem_cons_self)
-            simp only at h
-            repeat' split at h
-            all_goals first
-              | contradiction
-              | (simp at h; done)
-              | (simp at h; exact h.symm)
-              | exact parseBody_lexOK rest _ _ _ e hrest h
-
-theorem parseItems_false_noudigit : ∀ (ts : List Tok) (i0 : Bool) (e : Err), ts.all (· ≠ Tok.udigit) = true →
-    parseItems false i0 ts = .error e → e = Err.parseError
-  | [], _, e, _, h => by simp [parseItems] at h
-  | t :: ts, i0, e, hu, h => by
-      simp only [List.all_cons, Bool.and_eq_true, decide_eq_true_eq] at hu
-      obtain ⟨hu1, hu2⟩ := hu
-      cases t with
-      | nat n =>
-        simp only [parseItems, ok_bind, pure_eq] at h
-        cases hr : parseItems false false ts with
-        | error e' => rw [hr] at h; simp at h; subst h; exact parseItems_false_noudigit ts false e' hu2 hr
-        | ok xs => rw [hr] at h; simp at h
-      | udigit => exact absurd rfl hu1
-      | dec r => simp [parseItems] at h; exact h.symm
-      | nan => simp [parseItems] at h; exact h.symm
-      | bad => simp [parseItems] at h; exact h.symm
-
-def headOK : Line → Bool
-  | .toks ts => ts.all (· ≠ Tok.udigit)
-  | _ => true
-
-theorem lexOK_cons (hd : Line) (rest : List Line) : lexOK (hd :: rest) = (headOK hd && bodyLexOK rest) := by
-  cases hd <;> simp [lexOK, headOK]
-
-theorem parseHeader_lexOK (l : Line) (e : Err) (hl : headOK l = true)
-    (h : parseHeader l = .error e) : e = Err.parseError := by
-  simp only [parseHeader] at h
-  cases hr : parseNumline false l with
-  | error e' =>
-    rw [hr] at h; simp at h; subst h
-    cases l with
-    | blank => simp [parseNumline] at hr
-    | quoted s => simp [parseNumline] at hr; exact hr.symm
-    | toks ts => exact parseItems_false_noudigit ts true e' hl hr
-  | ok xs =>
-    rw [hr] at h
-    simp only [ok_bind] at h
-    split at h
-    · simp at h
-    · simp at h; exact h.symm
-
-theorem loadBlt_lexOK (ls : List Line) (e : Err) (hl : lexOK ls = true) (h : loadBlt ls = .error e) :
-    e = Err.parseError ∨ e = Err.other "IndexError" := by
-  cases ls with
-  | nil => simp [loadBlt] at h; exact Or.inl h.symm
-  | cons hd rest =>
-    rw [lexOK_cons, Bool.and_eq_true] at hl
-    obtain ⟨hhead, hbody⟩ := hl
-    simp only [loadBlt] at h
-    cases hh : parseHeader hd with
-    | error e' => rw [hh] at h; simp at h; subst h; exact Or.inl (parseHeader_lexOK _ _ hhead hh)
-    | ok ns =>
-      obtain ⟨nC, nS⟩ := ns
-      rw [hh] at h
-      simp only [ok_bind] at h
-      cases hb : parseBody rest [] [] false with
-      | error e' => rw [hb] at h; simp at h; subst h; exact Or.inl (parseBody_lexOK _ _ _ _ _ hbody hb)
-      | ok r =>
-        obtain ⟨bal, wd, rest'⟩ := r
-        rw [hb] at h
-        simp only [ok_bind] at h
-        cases hs : parseStrings rest' nC with
-        | error e' => rw [hs] at h; simp at h; subst h; exact Or.inl (parseStrings_err _ _ _ hs)
-        | ok r2 =>
-          obtain ⟨names?, title⟩ := r2
-          rw [hs] at h
-          simp only [ok_bind] at h
-          cases hd2 : deindex (formCandidates (names?.getD (numericCandidates nC)) wd).length bal [] with
-          | error e' => rw [hd2] at h; simp at h; subst h; exact Or.inr (deindex_err _ _ _ _ hd2)
-          | ok tb => rw [hd2] at h; simp at h
-
-
-/-! ### candidate numbers within the header count: no IndexError either -/
-
-def inRange (n : Nat) : Tok → Bool
-  | .nat i => decide (1 ≤ i) && decide (i ≤ n)
-  | _ => false
-
-/-- the candidate numbers of a ballot line (everything between the weight and the closing 0) lie in 1..n;
-    withdrawn lines (negative first item) carry none -/
-def ballotIdxOK (n : Nat) : List Tok → Bool
-  | [] => true
-  | .dec r :: more => decide (r < 0) || (more.dropLast).all (inRange n)
-  | _ :: more => (more.dropLast).all (inRange n)
-
-def bodyIdxOK (n : Nat) : List Line → Bool
-  | [] => true
-  | .blank :: rest => bodyIdxOK n rest
-  | .quoted _ :: _ => true
-  | .toks ts :: rest => isTerm ts || (ballotIdxOK n ts && bodyIdxOK n rest)
-
-/-- `idxOK`: with a header `n s`, every ballot line read names candidates 1..n only -/
-def idxOK : List Line → Bool
-  | .toks [.nat n, .nat _] :: rest => bodyIdxOK n rest
-  | _ => true
-
-theorem parseItems_false_nats (a : Bool) : ∀ (ts : List Tok) (xs : List Num), ts.all Tok.isNum = true →
-    parseItems a false ts = .ok xs → ∃ ns : List Nat, ts = ns.map Tok.nat ∧ xs = ns.map Num.nat
-  | [], xs, _, h => by simp [parseItems] at h; subst h; exact ⟨[], rfl, rfl⟩
-  | t :: ts, xs, hn, h => by
-      simp only [List.all_cons, Bool.and_eq_true] at hn
-      cases t with
-      | nat n =>
-        simp only [parseItems, ok_bind, pure_eq] at h
-        cases hr : parseItems a false ts with
-        | error e => rw [hr] at h; simp at h
-        | ok ys =>
-          rw [hr] at h; simp at h; subst h
-          obtain ⟨ns, h1, h2⟩ := parseItems_false_nats a ts ys hn.2 hr
-          exact ⟨n :: ns, by simp [h1], by simp [h2]⟩
-      | dec r => simp [parseItems] at h
-      | nan => simp [Tok.isNum] at hn
-      | udigit => simp [Tok.isNum] at hn
-      | bad => simp [Tok.isNum] at hn
-
-/-- all stored ballots name candidates 1..n -/
-def rawOK (n : Nat) (bs : RawBallots) : Prop := ∀ b ∈ bs, ∀ i ∈ b.1, 1 ≤ i ∧ i ≤ n
-
-theorem addBallot_rawOK (n : Nat) : ∀ (bs : RawBallots) (b : List Nat) (w : Rat), rawOK n bs →
-    (∀ i ∈ b, 1 ≤ i ∧ i ≤ n) → rawOK n (addBallot bs b w)
-  | [], b, w, _, hb => by
-      intro x hx; simp [addBallot] at hx; subst hx; exact hb
-  | (b', w') :: t, b, w, h, hb => by
-      simp only [addBallot]
-      split
-      · intro x hx
-        rcases List.mem_cons.1 hx with h1 | h1
-        · subst h1; exact h (b', w') (List.mem_cons_self)
-        · exact h x (List.mem_cons_of_mem _ h1)
-      · intro x hx
-        rcases List.mem_cons.1 hx with h1 | h1
-        · subst h1; exact h (b', w') (List.mem_cons_self)
-        · exact addBallot_rawOK n t b w (fun y hy => h y (List.mem_cons_of_mem _ hy)) hb x h1
-
-theorem natsOf_dropLast_nats (ns : List Nat) : natsOf ((ns.map Num.nat).dropLast) = ns.dropLast := by
-  rw [← List.map_dropLast, natsOf_nats]
-
-theorem parseBody_rawOK (n : Nat) : ∀ (ls : List Line) (bs : RawBallots) (wd : List Rat) (seen : Bool)
-    (r : RawBallots × List Rat × List Line),
-    bodyLexOK ls = true → bodyIdxOK n ls = true → rawOK n bs → parseBody ls bs wd seen = .ok r → rawOK n r.1
-  | [], _, _, _, r, _, _, _, h => by simp [parseBody] at h
-  | .blank :: rest, bs, wd, seen, r, hl, hi, hb, h => by
-      simp only [bodyLexOK] at hl
-      simp only [bodyIdxOK] at hi
-      simp only [parseBody, parseNumline, pure_eq, ok_bind] at h
-      exact parseBody_rawOK n rest bs wd seen r hl hi hb h
-  | .quoted s :: rest, _, _, _, _, hl, _, _, _ => by simp [bodyLexOK] at hl
-  | .toks ts :: rest, bs, wd, seen, r, hl, hi, hb, h => by
-      simp only [bodyLexOK, Bool.and_eq_true, Bool.or_eq_true] at hl
-      obtain ⟨hnum, hterm⟩ := hl
-      by_cases hT : isTerm ts = true
-      · rw [isTerm_parseBody ts hT] at h
-        cases h
-        exact hb
-      · have hrest : bodyLexOK rest = true := by
-          cases hterm with
-          | inl h1 => exact absurd h1 hT
-          | inr h1 => exact h1
-        simp only [bodyIdxOK, hT, Bool.false_or, Bool.and_eq_true] at hi
-        obtain ⟨hidx, hirest⟩ := hi
-        simp only [parseBody, parseNumline] at h
-        cases hr : parseItems true true ts with
-        | error e' => rw [hr] at h; simp at h
-        | ok result =>
-          rw [hr] at h
-          simp only [ok_bind] at h
-          cases result with
-          | nil => exact parseBody_rawOK n rest bs wd seen r hrest hirest hb h
-          | cons first more =>
-            -- the tokens behind `more` are plain numbers
-            cases ts with
-            | nil => simp [parseItems] at hr
-            | cons t0 ts' =>
-              simp only [List.all_cons, Bool.and_eq_true] at hnum
-              have hmore : ∃ ns : List Nat, ts' = ns.map Tok.nat ∧ more = ns.map Num.nat := by
-                cases t0 with
-                | nat k =>
-                  simp only [parseItems, ok_bind, pure_eq] at hr
-                  cases hr' : parseItems true false ts' with
-                  | error e => rw [hr'] at hr; simp at hr
-                  | ok ys =>
-                    rw [hr'] at hr; simp at hr
-                    obtain ⟨_, rfl⟩ := hr
-                    exact parseItems_false_nats true ts' ys hnum.2 hr'
-                | dec q =>
-                  simp only [parseItems, Bool.and_self, if_true, ok_bind, pure_eq] at hr
-                  cases hr' : parseItems true false ts' with
-                  | error e => rw [hr'] at hr; simp at hr
-                  | ok ys =>
-                    rw [hr'] at hr; simp at hr
-                    obtain ⟨_, rfl⟩ := hr
-                    exact parseItems_false_nats true ts' ys hnum.2 hr'
-                | nan => simp [Tok.isNum] at hnum
-                | udigit => simp [Tok.isNum] at hnum
-                | bad => simp [Tok.isNum] at hnum
-              obtain ⟨ns, hts', rfl⟩ := hmore
-              simp only at h
-              repeat' split at h
-              all_goals first
-                | (simp at h; done)
-                | (cases h; exact hb)
-                | exact parseBody_rawOK n rest bs _ seen r hrest hirest hb h
-                | skip
-              -- the ballot branch
-              all_goals (
-                rename_i hnotterm hnotnan hnotneg last hlast hlast0 w idx hbody
-                refine parseBody_rawOK n rest _ wd true r hrest hirest (addBallot_rawOK n bs _ _ hb ?_) h
-                cases ns with
-                | nil => simp at hbody
-                | cons k ks =>
-                  have hdl : (first :: List.map Num.nat (k :: ks)).dropLast = first :: (List.map Num.nat (k :: ks)).dropLast := by
-                    simp [List.dropLast]
-                  rw [hdl] at hbody
-                  simp only [List.cons.injEq] at hbody
-                  obtain ⟨hw, hidxeq⟩ := hbody
-                  rw [← hidxeq, natsOf_dropLast_nats]
-                  -- the candidate numbers are in range by `ballotIdxOK`
-                  have hall : ((k :: ks).dropLast.map Tok.nat).all (inRange n) = true := by
-                    have hdrop : ts'.dropLast = (k :: ks).dropLast.map Tok.nat := by rw [hts', List.map_dropLast]
-                    cases t0 with
-                    | nat k0 => simpa [ballotIdxOK, hdrop] using hidx
-                    | dec q =>
-                      have hfirst : first = Num.dec q := by
-                        simp only [parseItems, Bool.and_self, if_true, ok_bind, pure_eq] at hr
-                        cases hr' : parseItems true false ts' with
-                        | error e => rw [hr'] at hr; simp at hr
-                        | ok ys => rw [hr'] at hr; simp at hr; exact hr.1.symm
-                      have hq : ¬ q < 0 := by simpa [hfirst, Num.val] using hnotterm
-                      simpa [ballotIdxOK, hdrop, hq] using hidx
-                    | nan => simp [Tok.isNum] at hnum
-                    | udigit => simp [Tok.isNum] at hnum
-                    | bad => simp [Tok.isNum] at hnum
-                  intro i hi
-                  have := (List.all_eq_true.1 hall) (Tok.nat i) (List.mem_map_of_mem hi)
-                  simpa [inRange] using this)
-
-
-theorem deindexOne_inrange (n : Nat) : ∀ idx : List Nat, (∀ i ∈ idx, 1 ≤ i ∧ i ≤ n) → ∃ js, deindexOne n idx = .ok js
-  | [], _ => ⟨[], rfl⟩
-  | i :: t, h => by
-      obtain ⟨h1, h2⟩ := h i (List.mem_cons_self)
-      obtain ⟨js, hj⟩ := deindexOne_inrange n t (fun j hj => h j (List.mem_cons_of_mem _ hj))
-      have hne : i ≠ 0 := by omega
-      exact ⟨(i - 1) :: js, by simp [deindexOne, pyIndex, hne, h2, hj]⟩
-
-theorem deindex_inrange (n : Nat) : ∀ (bs : RawBallots) (acc : List (List Nat × Rat)), rawOK n bs →
-    ∃ out, deindex n bs acc = .ok out
-  | [], acc, _ => ⟨acc, rfl⟩
-  | (b, w) :: t, acc, h => by
-      obtain ⟨js, hj⟩ := deindexOne_inrange n b (h (b, w) (List.mem_cons_self))
-      obtain ⟨out, ho⟩ := deindex_inrange n t (setBallot acc js w) (fun x hx => h x (List.mem_cons_of_mem _ hx))
-      exact ⟨out, by simp [deindex, hj, ho]⟩
-
-theorem numericCandidates_length (n : Nat) : (numericCandidates n).length = n := by simp [numericCandidates]
-
-/-- whatever `_parse_strings` returns, the candidate list has exactly the header's length -/
-theorem parseStrings_length (ls : List Line) (n : Nat) (names? : Option (List String)) (title : Option String)
-    (h : parseStrings ls n = .ok (names?, title)) : (names?.getD (numericCandidates n)).length = n := by
-  simp only [parseStrings] at h
-  cases hc : collectStrings ls false [] with
-  | error e => rw [hc] at h; simp at h
-  | ok parsed =>
-    rw [hc] at h
-    simp only [ok_bind] at h
-    repeat' split at h
-    all_goals first
-      | (simp at h; done)
-      | (simp at h; obtain ⟨rfl, _⟩ := h; simp [numericCandidates_length]; done)
-      | (simp at h; obtain ⟨rfl, _⟩ := h; simp [numericCandidates_length]; omega)
-
-theorem parseItems_length (a : Bool) : ∀ (ts : List Tok) (i0 : Bool) (xs : List Num),
-    parseItems a i0 ts = .ok xs → xs.length = ts.length
-  | [], _, xs, h => by simp [parseItems] at h; subst h; rfl
-  | t :: ts, i0, xs, h => by
-      have step : ∀ (x : Num), (parseItems a false ts >>= fun ys => pure (x :: ys)) = Except.ok xs →
-          xs.length = (t :: ts).length := by
-        intro x hx
-        cases hr : parseItems a false ts with
-        | error e => rw [hr] at hx; simp at hx
-        | ok ys =>
-          rw [hr] at hx; simp at hx; subst hx
-          simp [parseItems_length a ts false ys hr]
-      cases t with
-      | nat n => simp only [parseItems, ok_bind, pure_eq] at h; exact step _ h
-      | udigit => simp [parseItems] at h
-      | dec r =>
-        simp only [parseItems] at h
-        by_cases hc : (i0 && a) = true
-        · simp only [hc, if_true, ok_bind, pure_eq] at h; exact step _ h
-        · simp [hc] at h
-      | nan =>
-        simp only [parseItems] at h
-        by_cases hc : (i0 && a) = true
-        · simp only [hc, if_true, ok_bind, pure_eq] at h; exact step _ h
-        · simp [hc] at h
-      | bad =>
-        simp only [parseItems] at h
-        by_cases hc : (i0 && a) = true
-        · simp [hc] at h
-        · simp [hc] at h
-
-theorem parseHeader_ok_inv (hd : Line) (nC nS : Nat) (h : parseHeader hd = .ok (nC, nS)) :
-    hd = Line.toks [.nat nC, .nat nS] := by
-  simp only [parseHeader] at h
-  cases hp : parseNumline false hd with
-  | error e' => rw [hp] at h; simp at h
-  | ok xs =>
-    rw [hp] at h
-    simp only [ok_bind] at h
-    split at h
-    · rename_i a b
-      simp at h
-      obtain ⟨rfl, rfl⟩ := h
-      cases hd with
-      | blank => simp [parseNumline] at hp
-      | quoted s => simp [parseNumline] at hp
-      | toks ts =>
-        simp only [parseNumline] at hp
-        have hlen := parseItems_length false ts true _ hp
-        match ts, hlen, hp with
-        | [t1, t2], _, hp =>
-          cases t1 <;> cases t2 <;> simp [parseItems] at hp
-          obtain ⟨rfl, rfl⟩ := hp
-          rfl
-    · simp at h
-
-theorem loadBlt_inrange (ls : List Line) (e : Err) (hl : lexOK ls = true) (hi : idxOK ls = true)
-    (h : loadBlt ls = .error e) : e = Err.parseError := by
+/-- every exception `loads` can raise on any token lines is the parse error -/
+theorem loadBlt_err (ls : List Line) (e : Err) (h : loadBlt ls = .error e) : e = Err.parseError := by
   cases ls with
   | nil => simp [loadBlt] at h; exact h.symm
   | cons hd rest =>
-    rw [lexOK_cons, Bool.and_eq_true] at hl
-    obtain ⟨hhead, hbody⟩ := hl
     simp only [loadBlt] at h
     cases hh : parseHeader hd with
-    | error e' => rw [hh] at h; simp at h; subst h; exact parseHeader_lexOK _ _ hhead hh
+    | error e' => rw [hh] at h; simp at h; subst h; exact parseHeader_err _ _ hh
     | ok ns =>
       obtain ⟨nC, nS⟩ := ns
-      -- a header that parses is `toks [nat nC, nat nS]`, so `idxOK` speaks about nC
-      have hidx : bodyIdxOK nC rest = true := by
-        obtain ⟨hdeq⟩ : Nonempty (hd = Line.toks [.nat nC, .nat nS]) := ⟨parseHeader_ok_inv hd nC nS hh⟩
-        subst hdeq
-        simpa [idxOK] using hi
       rw [hh] at h
       simp only [ok_bind] at h
       cases hb : parseBody rest [] [] false with
-      | error e' => rw [hb] at h; simp at h; subst h; exact parseBody_lexOK _ _ _ _ _ hbody hb
+      | error e' => rw [hb] at h; simp at h; subst h; exact parseBody_err _ _ _ _ _ hb
       | ok r =>
         obtain ⟨bal, wd, rest'⟩ := r
-        have hraw : rawOK nC bal :=
-          parseBody_rawOK nC rest [] [] false (bal, wd, rest') hbody hidx (fun b hb => by simp at hb) hb
         rw [hb] at h
         simp only [ok_bind] at h
         cases hs : parseStrings rest' nC with
@@ -974,12 +489,85 @@ theorem loadBlt_inrange (ls : List Line) (e : Err) (hl : lexOK ls = true) (hi : 
           obtain ⟨names?, title⟩ := r2
           rw [hs] at h
           simp only [ok_bind] at h
-          have hlen : (formCandidates (names?.getD (numericCandidates nC)) wd).length = nC := by
-            simp only [formCandidates]
-            rw [formFrom_length, parseStrings_length _ _ _ _ hs]
-          rw [hlen] at h
-          obtain ⟨out, ho⟩ := deindex_inrange nC bal [] hraw
-          rw [ho] at h
-          simp at h
+          cases hd2 : deindex (formCandidates (names?.getD (numericCandidates nC)) wd).length bal with
+          | error e' => rw [hd2] at h; simp at h; subst h; exact deindex_err _ _ _ hd2
+          | ok tb => rw [hd2] at h; simp at h
+
+/-! ### what is returned names listed candidates only -/
+theorem setBallot_keys : ∀ (acc : List (List Nat × Rat)) (b : List Nat) (w : Rat) (x : List Nat × Rat),
+    x ∈ setBallot acc b w → x.1 = b ∨ x ∈ acc
+  | [], b, w, x, h => by simp [setBallot] at h; subst h; exact Or.inl rfl
+  | (b', w') :: t, b, w, x, h => by
+      simp only [setBallot] at h
+      split at h
+      · rename_i heq
+        rcases List.mem_cons.1 h with h1 | h1
+        · subst h1; exact Or.inl heq
+        · exact Or.inr (List.mem_cons_of_mem _ h1)
+      · rcases List.mem_cons.1 h with h1 | h1
+        · subst h1; exact Or.inr (List.mem_cons_self)
+        · rcases setBallot_keys t b w x h1 with h2 | h2
+          · exact Or.inl h2
+          · exact Or.inr (List.mem_cons_of_mem _ h2)
+
+theorem deindexAll_valid (n : Nat) : ∀ (bs : RawBallots) (acc : List (List Nat × Rat)),
+    allInRange n bs = true → (∀ x ∈ acc, ∀ i ∈ x.1, i < n) → ∀ x ∈ deindexAll bs acc, ∀ i ∈ x.1, i < n
+  | [], acc, _, hacc => by simpa [deindexAll] using hacc
+  | (b, w) :: t, acc, hr, hacc => by
+      simp only [allInRange, List.all_cons, Bool.and_eq_true] at hr
+      obtain ⟨hb, ht⟩ := hr
+      simp only [deindexAll]
+      apply deindexAll_valid n t _ (by simpa [allInRange] using ht)
+      intro x hx i hi
+      rcases setBallot_keys acc _ w x hx with h1 | h1
+      · rw [h1] at hi
+        simp only [List.mem_map] at hi
+        obtain ⟨j, hj, rfl⟩ := hi
+        have := (List.all_eq_true.1 hb) j hj
+        simp only [Bool.and_eq_true, decide_eq_true_eq] at this
+        omega
+      · exact hacc x h1 i hi
+
+theorem formFrom_length' (W : List Rat) (names : List String) : (formCandidates names W).length = names.length := by
+  simp [formCandidates, formFrom_length]
+
+/-- a document that is returned never names a candidate outside its own candidate list (no partial / aliased data) -/
+theorem loadBlt_valid (ls : List Line) (d : Doc Rat) (h : loadBlt ls = .ok d) :
+    ∀ b ∈ d.ballots, ∀ i ∈ b.1, i < d.cands.length := by
+  cases ls with
+  | nil => simp [loadBlt] at h
+  | cons hd rest =>
+    simp only [loadBlt] at h
+    cases hh : parseHeader hd with
+    | error e' => rw [hh] at h; simp at h
+    | ok ns =>
+      obtain ⟨nC, nS⟩ := ns
+      rw [hh] at h
+      simp only [ok_bind] at h
+      cases hb : parseBody rest [] [] false with
+      | error e' => rw [hb] at h; simp at h
+      | ok r =>
+        obtain ⟨bal, wd, rest'⟩ := r
+        rw [hb] at h
+        simp only [ok_bind] at h
+        cases hs : parseStrings rest' nC with
+        | error e' => rw [hs] at h; simp at h
+        | ok r2 =>
+          obtain ⟨names?, title⟩ := r2
+          rw [hs] at h
+          simp only [ok_bind] at h
+          cases hd2 : deindex (formCandidates (names?.getD (numericCandidates nC)) wd).length bal with
+          | error e' => rw [hd2] at h; simp at h
+          | ok tb =>
+            rw [hd2] at h
+            simp at h
+            subst h
+            simp only [deindex] at hd2
+            split at hd2
+            · rename_i hr
+              simp at hd2
+              subst hd2
+              exact deindexAll_valid _ bal [] hr (by simp)
+            · simp at hd2
 
 end VL.Blt
